@@ -6,10 +6,10 @@ func init() {
 		Jobs: func(tier string) []*Job {
 			return []*Job{
 				{Name: "notation-single", Pkg: "ti/builtin", Entry: "VerifNotation", N: 1, Budget: 400000, Reach: []string{"compared"},
-					Asserts: []string{"C21-optional-return", "C21-default-argument", "C21-asterisk-argument", "C21-array", "C21-int-integer", "C21-optionalx", "C21-defaultx"}, Replay: "kernel",
+					Asserts: []string{"C21-optional-return", "C21-default-argument", "C21-asterisk-argument", "C21-array", "C21-int-integer", "C21-optionalx", "C21-defaultx"}, Replay: "kernel", Cross: true,
 					Bound: "type atom T ranges over every name in builtin.AllTypeNames plus Integer, a plain class and a namespaced class (a solver-chosen choice string); ?T / *T / [T] / Int / OptionalX / DefaultX equivalences, one level of notation"},
 				{Name: "notation-pairs", Pkg: "ti/builtin", Entry: "VerifNotation", N: 2, Budget: 400000, Reach: []string{"compared-pairs"},
-					Asserts: []string{"C21-union-return", "C21-union-argument"}, Replay: "kernel",
+					Asserts: []string{"C21-union-return", "C21-union-argument"}, Replay: "kernel", Cross: true,
 					Bound: "\"A|B\" vs [\"A\",\"B\"] for every ordered pair of atoms, as return type and as argument type"},
 			}
 		},
